@@ -301,16 +301,32 @@ def main():
     else:
         corr["tool_errors"].append({"what": "harness-build-failed (the code under /repo no longer compiles against the harness)", "tail": build_out[-2500:]})
 
+    # ---- step E: replay the witnesses of known_findings.json on the real code
+    witness_res = []
+    if ok_build:
+        hbin = os.path.join(cfg.get("harness_dir", HARNESS), "target", "release", cfg.get("harness_bin", "adbharness"))
+        w = run([hbin, "WITNESS", pid, os.path.join(ROOT, "known_findings.json"), workdir], cwd=ROOT, timeout=600)
+        log.write("== witness replay\n" + w.stdout[-2000:] + "\n")
+        try:
+            witness_res = json.load(open(os.path.join(workdir, "witness.json")))["replayed"]
+        except Exception as e:  # noqa
+            corr["tool_errors"].append({"what": "witness-replay-failed", "detail": str(e)})
+
     # ---- verdict
     lines = []
     exit_code = 0
     rep = corr["report"]
+    for wres in witness_res:
+        if wres["status"] == "fixed" and wres["holds_on_witness"] is False:
+            corr["violations"].append({"kind": "fixed-finding-returned", "class": None,
+                                       "case": {"finding": wres["id"], "what": wres["what"]}})
     # known findings: print one line per listed finding that is still observed
     seen_known = {}
     for k in corr["known"]:
         seen_known.setdefault(k.get("class"), k)
+    still = {wr["id"] for wr in witness_res if wr["status"] == "finding" and wr["holds_on_witness"] is False}
     for f in known_findings():
-        if f["property"] == pid and f["status"] == "finding" and f.get("class") in seen_known:
+        if f["property"] == pid and f["status"] == "finding" and (f.get("class") in seen_known or f["id"] in still):
             lines.append(f"KNOWN-FINDING: property={pid} {f['id']}: {f['what']}")
     violations = corr["violations"]
     replay_path = os.path.join(REPLAY, f"{pid}-{seed}.json")
@@ -353,6 +369,7 @@ def main():
         "input_distribution": rep.get("stats", {}),
         "exhaustive": bool(rep.get("stats", {}).get("exhaustive", 0)),
         "proof_problems": proof["problems"],
+        "known_findings_replayed": witness_res,
     }
     ev = {
         "property_id": pid, "tier": tier, "seed": seed, "level": "proof",
